@@ -124,6 +124,7 @@ def run_impl(c, model=None, record=True):
                     ct = vc.OrContour(m, c["alpha"], n=c.get("n"), deg_step=c["deg_step"], sample=smp, allowed_error=c["allowed_error"],
                                       lowest_theta=c["lowest"], highest_theta=c["highest"])
                 co = ct.coordinates
+                out["contour"] = ct
                 out["n_attr"] = ct.n
                 out["sample_attr"] = np.array(ct.sample, dtype=float)
                 out["requested"] = getattr(m, "requested", [])
@@ -485,6 +486,11 @@ def to_replay(c):
 
 
 def replay(ctx, d):
+    if "history" in d:
+        _, v = run_history(d["history"])
+        if v:
+            print("  ", v[1])
+        return v is not None
     c = dict(d, sample=np.array(d["sample"], dtype=float))
     o = oracle(c)
     if o:
@@ -511,6 +517,82 @@ def seastate_model(rng=None):
     d1 = {"distribution": LogNormalDistribution(), "conditional_on": 0,
           "parameters": {"mu": DependenceFunction(_power3, bounds), "sigma": DependenceFunction(_exp3, bounds)}}
     return GlobalHierarchicalModel([d0, d1])
+
+
+class RecordingModel:
+    """hands every call through to the real model object (same arrays, no copies) and records the sizes asked of draw_sample"""
+
+    def __init__(self, real):
+        self._real = real
+        self.n_dim = real.n_dim
+        self.requested = []
+
+    def draw_sample(self, n, *a, **k):
+        self.requested = self.requested + [n]
+        return self._real.draw_sample(n, *a, **k)
+
+    def marginal_icdf(self, *a, **k):
+        return self._real.marginal_icdf(*a, **k)
+
+
+def run_history(spec):
+    """Several contours with sample=None from ONE model object (same alpha, hence the same n).  Each contour is judged when it is
+    built; after every later construction every earlier contour is judged again against its own .sample as it is then, and its
+    .sample and .coordinates must still be what they were right after construction.  Returns (n_judgements, violation or None)."""
+    np.random.seed(spec["seed"] % (2 ** 32))
+    if spec.get("model") == "independent":
+        # both variables unconditional: marginal_icdf is the distribution's icdf, the model draws nothing besides the contour's sample
+        from virocon import GlobalHierarchicalModel, WeibullDistribution, LogNormalDistribution
+        real = GlobalHierarchicalModel([{"distribution": WeibullDistribution(alpha=2.776, beta=1.471, gamma=0.8888)},
+                                        {"distribution": LogNormalDistribution(mu=1.9, sigma=0.25)}])
+    else:
+        real = seastate_model()
+    built = []
+    judged = 0
+
+    def judge(k, when):
+        c, r = built[k]
+        ct = r["contour"]
+        cls = "AndContour" if c["mode"] == "and" else "OrContour"
+        live = np.asarray(ct.sample, dtype=float)
+        o = oracle(dict(c, sample=live.copy()), r)
+        if o is not None:
+            o[0]["history"] = "same-model"
+            changed = live.shape != r["sample_attr"].shape or not np.array_equal(live, r["sample_attr"])
+            return (o[0], "contour %d (%s) %s, judged in its own .sample%s: %s" % (
+                k, cls, when, " (which is no longer the array contents it was computed from)" if changed else "", o[1]))
+        if live.shape != r["sample_attr"].shape or not np.array_equal(live, r["sample_attr"]):
+            nch = int(np.sum(np.any(live != r["sample_attr"], axis=1))) if live.shape == r["sample_attr"].shape else -1
+            return ({"class": cls, "clause": "sample-mutated", "history": "same-model"},
+                    "contour %d (%s) %s: its .sample is no longer the sample it was computed from (%d of %d rows changed)" % (k, cls, when, nch, len(live)))
+        now = [(cell(ct.coordinates[i, 0]), cell(ct.coordinates[i, 1])) for i in range(ct.coordinates.shape[0])]
+        if now != r["coords"]:
+            return ({"class": cls, "clause": "coordinates-mutated", "history": "same-model"}, "contour %d (%s) %s: its coordinates changed" % (k, cls, when))
+        return None
+
+    for k, mode in enumerate(spec["modes"]):
+        c = {"sid": None, "kind": "history", "sample": np.zeros((1, 2)), "alpha": spec["alpha"], "deg_step": spec["deg_step"], "allowed_error": spec["allowed_error"],
+             "xm": None, "ym": None, "mode": mode, "lowest": 10, "highest": 80, "drawn": True, "n": spec.get("n")}
+        r = run_impl(c, model=RecordingModel(real))
+        if "err" in r:
+            return judged, ({"class": "AndContour" if mode == "and" else "OrContour", "clause": "exception", "history": "same-model"}, "contour %d raised %s" % (k, r["err"]))
+        c["sample"] = r["sample_attr"]
+        built.append((c, r))
+        for j in range(len(built)):
+            judged += 1
+            v = judge(j, "right after construction" if j == k else "after contour %d (%s) was built from the same model" % (k, mode))
+            if v is not None:
+                return judged, v
+    return judged, None
+
+
+def history_specs(ctx):
+    out = []
+    for k in range(ctx.n(4, 12)):
+        out.append({"model": "independent" if k % 2 == 0 else "seastate", "n": None if k % 4 < 2 else ctx.rng.choice([2000, 4000]),
+                    "seed": ctx.rng.randrange(2 ** 31), "alpha": ctx.rng.choice([0.05, 0.1, 0.02]), "deg_step": ctx.rng.choice([10, 15, 30]),
+                    "allowed_error": ctx.rng.choice([0.02, 0.05, 0.1]), "modes": [["and", "or", "and"], ["or", "or"], ["and", "and", "or"]][k % 3]})
+    return out
 
 
 def real_model_cases(ctx):
@@ -626,6 +708,21 @@ def run(ctx):
         if ctx.violation(o2[0], o2[1], to_replay(small)):
             found += 1
     ctx.notes["rays_with_warning_exceedance_not_judged"] = unjudged
+    # ---- histories: several contours drawn from one model object, earlier contours re-judged after each later construction
+    try:
+        nj = 0
+        for spec in history_specs(ctx):
+            if found >= 8:
+                break
+            done, v = run_history(spec)
+            nj += done
+            if v is not None and ctx.violation(v[0], v[1], {"history": spec}):
+                found += 1
+        ctx.cov["evaluations"] += nj
+        ctx.notes["history_judgements_same_model"] = nj
+    except Exception:  # noqa
+        import traceback
+        ctx.broken.append(("harness-crash", "C04 history cases", traceback.format_exc()[-1500:]))
     ctx.cov["evaluations"] += len(stream) - len(cases)
     ctx.cov["rule"] = ("non-negative samples (sea-state like Weibull/log-normal, log-normal pairs, exponential, wind-wave, exact zeros, values rounded to 0.1, observations "
                        "planted exactly on the first probe of some rays; n 200..5000 quick / ..12000 thorough) x alpha in [1e-3, 0.2] x deg_step in [1, 30] (int and float) x "
